@@ -77,6 +77,22 @@ pub fn run(_args: &[String]) -> i32 {
             }
         }
     }
+    // aliases that look like sub-accounts of another alias: a name is looked up as a whole, never segment by segment (seed C12-k)
+    {
+        let decls = "account Assets:Bank\n    alias Bank\n\naccount Expenses:Bank Fee\n    alias Bank:Fee\n\naccount Assets:Bank:Savings\n    alias Bank:S\n\n";
+        let body = |fee: &str, sav: &str, bank: &str| format!("2024/01/01 fee\n    {}    3 JPY\n    {}    100 JPY\n    {}\n\n", fee, sav, bank);
+        let want = run_real(&(decls.to_owned() + &body("Expenses:Bank Fee", "Assets:Bank:Savings", "Assets:Bank")));
+        for (fee, sav, bank) in [("Bank:Fee", "Assets:Bank:Savings", "Assets:Bank"), ("Expenses:Bank Fee", "Bank:S", "Bank"), ("Bank:Fee", "Bank:S", "Bank")] {
+            evaluated += 1;
+            let text = decls.to_owned() + &body(fee, sav, bank);
+            match (&want, run_real(&text)) {
+                (Real::Ok(w), Real::Ok(b)) => if &b != w && bad.len() < 8 { bad.push((text, format!("report with aliases {:?} differs from the report with canonical names {:?}", b, w))); },
+                (_, Real::Ok(_)) => bad.push((text, "canonical-spelled ledger was not accepted".into())),
+                (_, Real::Err(e)) => bad.push((text, format!("alias-spelled ledger rejected: {}", e.lines().next().unwrap_or("")))),
+                (_, Real::Panic) => bad.push((text, "panicked".into())),
+            }
+        }
+    }
     // use before declaration: the name used first becomes canonical; declaring it later as an alias must be rejected
     let conflicts = [
         decl("account", "Assets:Bank", &[]) + &decl("account", "Other", &["Assets:Bank"]),
